@@ -21,11 +21,14 @@ structure G where
   s : State := init
   legacy : Bool := true
   attempts : Nat := Gen.WFCQ_ADAPT_ATTEMPTS
-  opSteps : Nat → Nat := fun _ => 0      -- model steps (= shimmed primitives) of the thread's current / last API call
-  opRelax : Nat → Nat := fun _ => 0
+  opSteps : List (Nat × Nat) := []       -- per thread: model steps (= shimmed primitives) since the last SOLO_BEGIN
+  opRelax : List (Nat × Nat) := []       -- (strict association lists: closures built by `upd` under an `if` are re-evaluated on every lookup)
   cov : List (String × Nat) := []
 
 abbrev M := P G
+
+def getC (l : List (Nat × Nat)) (t : Nat) : Nat := ((l.find? (·.1 == t)).map (·.2)).getD 0
+def setC (l : List (Nat × Nat)) (t v : Nat) : List (Nat × Nat) := (t, v) :: l.filter (·.1 != t)
 
 def cover (k : String) : M Unit := P.act fun g => .ok { g with cov := bump g.cov k }
 def modify (f : G → G) : M Unit := P.act fun g => .ok (f g)
@@ -42,7 +45,7 @@ def lab (l : Label) (cnt : Bool := true) : M Unit := P.act fun g =>
   match step g.s l with
   | some s' =>
     let t := l.tid
-    .ok { g with s := drain t 8 s', opSteps := if cnt then upd g.opSteps t (g.opSteps t + 1) else g.opSteps }
+    .ok { g with s := drain t 8 s', opSteps := if cnt then setC g.opSteps t (getC g.opSteps t + 1) else g.opSteps }
   | none => .error s!"model step {repr l} not enabled (pc={repr (g.s.pc l.tid)})"
 
 def moOk (got : String) (want : Nat) : Bool := match got.toNat? with
@@ -129,7 +132,7 @@ def legacyMb (t : Nat) : M Unit := do
   if g.legacy then mbEv t
 
 def relaxCount (t : Nat) : M Unit :=
-  modify fun g => { g with opRelax := upd g.opRelax t (g.opRelax t + 1), opSteps := upd g.opSteps t (g.opSteps t + 1) }
+  modify fun g => { g with opRelax := setC g.opRelax t (getC g.opRelax t + 1), opSteps := setC g.opSteps t (getC g.opSteps t + 1) }
 
 -- ------------------------------------------------------------------------------------------
 -- include/urcu/static/wfcqueue.h, function by function
@@ -301,7 +304,7 @@ def retLine (op : String) (want : List String) : M Unit :=
 def flag (s : String) (pre : String) : M Bool :=
   if s == pre ++ "1" then pure true else if s == pre ++ "0" then pure false else P.fail s!"bad flag {s}"
 
-def resetOp (t : Nat) : M Unit := modify fun g => { g with opSteps := upd g.opSteps t 0, opRelax := upd g.opRelax t 0 }
+def resetOp (t : Nat) : M Unit := modify fun g => { g with opSteps := setC g.opSteps t 0, opRelax := setC g.opRelax t 0 }
 
 def kv (s pre : String) : M Nat :=
   if s.startsWith pre then match (s.drop pre.length).toString.toNat? with
@@ -321,8 +324,8 @@ partial def thread (t : Nat) : M Unit := do
     let st ← kv st "steps="; let rl ← kv rl "relax="
     let g ← P.get
     -- own steps of the solo run = number of model steps (one per shimmed primitive); no waiting
-    if st != g.opSteps t then P.fail s!"solo {op}: implementation took {st} own steps, model run has {g.opSteps t}"
-    if rl != 0 || g.opRelax t != 0 then P.fail s!"solo {op}: {rl} spin hints in an operation that must not wait"
+    if st != getC g.opSteps t then P.fail s!"solo {op}: implementation took {st} own steps, model run has {getC g.opSteps t}"
+    if rl != 0 || getC g.opRelax t != 0 then P.fail s!"solo {op}: {rl} spin hints in an operation that must not wait"
     cover s!"solo_{op}"
     modify fun g => { g with cov := (bump g.cov s!"K_{op}_max").map fun (k, n) => if k == s!"K_{op}_max" then (k, max (n - 1) st) else (k, n) }
     thread t
